@@ -86,20 +86,20 @@ theorem loop_exact : Exact (L.ops : ADOps K n) where
   sdiv c a := by dual_ext
 
 theorem dynamic_exact : Exact (D.ops : ADOps K n) := by
-  rw [GenProofs.D_ops_eq_loop]; exact loop_exact
+  rw [GenProofs.D_ops_eq_loop_field]; exact loop_exact
 
-theorem unrolled_exact_1 : Exact (U1.ops : ADOps K 1) := by rw [GenProofs.U1_ops_eq_loop]; exact loop_exact
-theorem unrolled_exact_2 : Exact (U2.ops : ADOps K 2) := by rw [GenProofs.U2_ops_eq_loop]; exact loop_exact
-theorem unrolled_exact_3 : Exact (U3.ops : ADOps K 3) := by rw [GenProofs.U3_ops_eq_loop]; exact loop_exact
-theorem unrolled_exact_4 : Exact (U4.ops : ADOps K 4) := by rw [GenProofs.U4_ops_eq_loop]; exact loop_exact
-theorem unrolled_exact_5 : Exact (U5.ops : ADOps K 5) := by rw [GenProofs.U5_ops_eq_loop]; exact loop_exact
-theorem unrolled_exact_6 : Exact (U6.ops : ADOps K 6) := by rw [GenProofs.U6_ops_eq_loop]; exact loop_exact
-theorem unrolled_exact_7 : Exact (U7.ops : ADOps K 7) := by rw [GenProofs.U7_ops_eq_loop]; exact loop_exact
-theorem unrolled_exact_8 : Exact (U8.ops : ADOps K 8) := by rw [GenProofs.U8_ops_eq_loop]; exact loop_exact
-theorem unrolled_exact_9 : Exact (U9.ops : ADOps K 9) := by rw [GenProofs.U9_ops_eq_loop]; exact loop_exact
-theorem unrolled_exact_10 : Exact (U10.ops : ADOps K 10) := by rw [GenProofs.U10_ops_eq_loop]; exact loop_exact
-theorem unrolled_exact_11 : Exact (U11.ops : ADOps K 11) := by rw [GenProofs.U11_ops_eq_loop]; exact loop_exact
-theorem unrolled_exact_12 : Exact (U12.ops : ADOps K 12) := by rw [GenProofs.U12_ops_eq_loop]; exact loop_exact
+theorem unrolled_exact_1 : Exact (U1.ops : ADOps K 1) := by rw [GenProofs.U1_ops_eq_loop_field]; exact loop_exact
+theorem unrolled_exact_2 : Exact (U2.ops : ADOps K 2) := by rw [GenProofs.U2_ops_eq_loop_field]; exact loop_exact
+theorem unrolled_exact_3 : Exact (U3.ops : ADOps K 3) := by rw [GenProofs.U3_ops_eq_loop_field]; exact loop_exact
+theorem unrolled_exact_4 : Exact (U4.ops : ADOps K 4) := by rw [GenProofs.U4_ops_eq_loop_field]; exact loop_exact
+theorem unrolled_exact_5 : Exact (U5.ops : ADOps K 5) := by rw [GenProofs.U5_ops_eq_loop_field]; exact loop_exact
+theorem unrolled_exact_6 : Exact (U6.ops : ADOps K 6) := by rw [GenProofs.U6_ops_eq_loop_field]; exact loop_exact
+theorem unrolled_exact_7 : Exact (U7.ops : ADOps K 7) := by rw [GenProofs.U7_ops_eq_loop_field]; exact loop_exact
+theorem unrolled_exact_8 : Exact (U8.ops : ADOps K 8) := by rw [GenProofs.U8_ops_eq_loop_field]; exact loop_exact
+theorem unrolled_exact_9 : Exact (U9.ops : ADOps K 9) := by rw [GenProofs.U9_ops_eq_loop_field]; exact loop_exact
+theorem unrolled_exact_10 : Exact (U10.ops : ADOps K 10) := by rw [GenProofs.U10_ops_eq_loop_field]; exact loop_exact
+theorem unrolled_exact_11 : Exact (U11.ops : ADOps K 11) := by rw [GenProofs.U11_ops_eq_loop_field]; exact loop_exact
+theorem unrolled_exact_12 : Exact (U12.ops : ADOps K 12) := by rw [GenProofs.U12_ops_eq_loop_field]; exact loop_exact
 
 /-- `Evaluation(c, varPos)` / `createVariable`: the `varPos`-th independent variable. -/
 theorem var_dual {ops : ADOps K n} (hx : Exact ops) (c : K) (k : Fin n) :
